@@ -1233,6 +1233,8 @@ type wworld struct {
 	label string
 	wire  int
 	dead  bool
+	// last call: the header at the head of the wire was refused (an error, no payload byte taken, no wait)
+	lastHdrRefused bool
 }
 
 func newWWorld(c *Ctx, label string, wire []byte, keyed bool) *wworld {
@@ -1265,6 +1267,7 @@ func (w *wworld) op(op, entry string, f func() (string, error)) {
 		flag, announced = w.conn.In[0], binary.BigEndian.Uint32(w.conn.In[1:5])
 	}
 	firstBad := firstBadFrame(w.conn.In)
+	inBefore, eofReads0 := len(w.conn.In), w.conn.EOFReads
 	runtime.ReadMemStats(&m0)
 	func() {
 		defer func() { pv = recover() }()
@@ -1291,10 +1294,16 @@ func (w *wworld) op(op, entry string, f func() (string, error)) {
 		if err != nil {
 			obs = "err " + decErr(err)
 		}
-		if announced > stream.MaxMessageSize && obs != "err tooLarge" {
-			viol("C13:frame-limit:"+entry, fmt.Sprintf("%s did not refuse a frame header announcing %d bytes (limit %d)", entry, announced, stream.MaxMessageSize), "err tooLarge", obs)
-		} else if announced <= stream.MaxMessageSize && flag > 10 && obs != "err badFlag" {
-			viol("C13:frame-flag:"+entry, fmt.Sprintf("%s did not refuse a frame header with end flag %d", entry, flag), "err badFlag", obs)
+		// "refused" is judged on EFFECTS, not on the wording of the error: an error came back, not one
+		// byte of the frame's payload was taken from the wire (at most the 5 header bytes were consumed)
+		// and the reader never went on to wait for bytes the wire does not hold
+		refused := err != nil && inBefore-len(w.conn.In) <= 5 && w.conn.EOFReads == eofReads0
+		how := fmt.Sprintf("%s; %d bytes taken from the wire, %d reads past its end", obs, inBefore-len(w.conn.In), w.conn.EOFReads-eofReads0)
+		w.lastHdrRefused = refused
+		if announced > stream.MaxMessageSize && !refused {
+			viol("C13:frame-limit:"+entry, fmt.Sprintf("%s did not refuse a frame header announcing %d bytes (limit %d)", entry, announced, stream.MaxMessageSize), "an error, no payload byte read", how)
+		} else if announced <= stream.MaxMessageSize && flag > 10 && !refused {
+			viol("C13:frame-flag:"+entry, fmt.Sprintf("%s did not refuse a frame header with end flag %d", entry, flag), "an error, no payload byte read", how)
 		}
 	}
 	if a, lim := m1.TotalAlloc-m0.TotalAlloc, uint64(16*w.wire+4<<20); a > lim {
@@ -1304,7 +1313,7 @@ func (w *wworld) op(op, entry string, f func() (string, error)) {
 	// unread wire that cannot be delivered decides how it must end. When that frame is an oversize
 	// header, every frame before it is complete and legal, so "ran out of data" can only mean the
 	// reader accepted the oversize header and waited for its payload.
-	if pv == nil && err != nil && (errors.Is(err, io.EOF) || errors.Is(err, io.ErrUnexpectedEOF)) && firstBad == "oversize" {
+	if pv == nil && err != nil && (errors.Is(err, io.EOF) || errors.Is(err, io.ErrUnexpectedEOF) || w.conn.EOFReads > eofReads0) && firstBad == "oversize" {
 		viol("C13:frame-limit:"+entry, fmt.Sprintf("%s ran out of data although the first undeliverable frame of the wire is a header announcing more than %d bytes: the header was accepted and a payload buffer sized from it", entry, stream.MaxMessageSize), "err tooLarge", "err eof")
 	}
 }
@@ -2070,7 +2079,7 @@ type childJob struct {
 	K       int      `json:"k"`
 	Api     string   `json:"api,omitempty"`    // kind "wire": recvn | getsecret | getfile | recvc | readmsg
 	Wire    string   `json:"wire,omitempty"`   // kind "wire": raw wire bytes (hex)
-	Expect  string   `json:"expect,omitempty"` // kind "wire": reply prefix the property demands ("" = none)
+	Expect  string   `json:"expect,omitempty"` // kind "wire": non-empty = the property demands that the first header is refused (judged on effects: childResult.HdrRefused)
 }
 
 type childResult struct {
@@ -2080,6 +2089,8 @@ type childResult struct {
 	// kind "wire": what the in-process oracles of wworld.op recorded inside the child
 	Viol []Violation `json:"viol,omitempty"`
 	Op   string      `json:"op,omitempty"` // kind "adnest": the operation as finally logged (parser verdict filled in)
+	// kind "wire": the reader returned an error without taking a payload byte or waiting for one
+	HdrRefused bool `json:"hdr_refused,omitempty"`
 }
 
 func hexFrames(fs []dframe) []string {
@@ -2126,6 +2137,7 @@ func runDecodeChild(c *Ctx) error {
 		fmt.Fprintf(out, "START %d\n", i)
 		out.Flush()
 		var rep, childOp string
+		hdrRefused := false
 		var m0, m1 runtime.MemStats
 		runtime.ReadMemStats(&m0)
 		func() {
@@ -2160,6 +2172,7 @@ func runDecodeChild(c *Ctx) error {
 				w := newWWorld(c, j.Label, wire, false)
 				w.api(j.Api)
 				rep = w.real[len(w.real)-1]
+				hdrRefused = w.lastHdrRefused
 			case "stack":
 				var wire []byte
 				for k := 0; k < j.K; k++ {
@@ -2182,7 +2195,7 @@ func runDecodeChild(c *Ctx) error {
 		if m1.StackInuse > m0.StackInuse {
 			stk = m1.StackInuse - m0.StackInuse
 		}
-		cr := childResult{Reply: rep, Alloc: m1.TotalAlloc - m0.TotalAlloc, Stack: stk, Op: childOp}
+		cr := childResult{Reply: rep, Alloc: m1.TotalAlloc - m0.TotalAlloc, Stack: stk, Op: childOp, HdrRefused: hdrRefused}
 		if j.Kind == "wire" {
 			cr.Viol = append(cr.Viol, c.Res.Violations...)
 			c.Res.Violations = nil
@@ -2350,7 +2363,7 @@ func runChildJobs(c *Ctx, jobs []childJob, cases *[]Case) error {
 					v.Ops = append([]string{ops[0]}, v.Ops...)
 					c13Violate(c, v)
 				}
-				if j.Expect != "" && !strings.HasPrefix(r.Reply, j.Expect) {
+				if j.Expect != "" && !r.HdrRefused {
 					c13Violate(c, Violation{Property: "C13", Key: "C13:frame-limit:" + entry, What: fmt.Sprintf("%s did not refuse a frame header announcing more than %d bytes (%s)", entry, stream.MaxMessageSize, j.Label), Ops: ops, Expected: j.Expect, Observed: clip(r.Reply, 200)})
 				}
 				rep := r.Reply
